@@ -45,6 +45,14 @@ def run(ctx):
                     if lim < 0:
                         continue
                 extra.append(s)
+    # the bound after a related search on the same cache object: every small limit preceded by the same request with
+    # no limit / a larger limit (requests that may not share a cached answer)
+    for lim in range(1, 13):
+        for entry in ("cached", "monitored"):
+            for prime in ("limit0", "limitbig"):
+                for corpus in ("mix", "tie"):
+                    extra.append(dict(entry=entry, limit=lim, nlp=rnd.random() < 0.5, fuzzy=rnd.random() < 0.5, thr=0, ponly=False, pboost=False,
+                                      allplat=corpus == "mix", plats=[], nocross=False, boost=False, query="lex", corpus=corpus, prime=prime))
     extra += shipped_scenarios(rnd, 60 if q else 1500)
     tr, info, ok, rej = engine.run_cases(ctx, scen + extra, ["C01"])
     for x in rej:
